@@ -2,6 +2,9 @@
 UNITS_CORE = ["contracts.units_fraction", "contracts.units_magnitude", "contracts.units_convert"]
 UNITS_ALL = UNITS_CORE + ["contracts.units_quantity", "contracts.units_frames", "contracts.units_nonlinear"]
 PROPS = {
+    "C03": dict(contracts=["contracts.units_fraction", "contracts.units_parse"], bounded="bounded.c03", level="proof",
+                assumptions=["the regular expressions of AtomParser (number literal, exponent suffix) are executed by CPython's re on concrete strings; their behaviour on all strings is covered only by the enumerated grammar and the bounded stand-in",
+                             "float ** float for table factors is CPython's"]),
     "C09": dict(contracts=["contracts.units_environment"], bounded="bounded.c09", level="proof",
                 assumptions=["the number and kind of units registered by a scope is enumerated by the scenarios (0-3 units: plain, prefixed, quantity-valued, with existing/new conversion type, duplicate, prefixed clash, malformed); magnitudes are symbolic",
                              "the six DIP call sites are `with UnitEnvironment(env.units):` blocks and are covered through the constructor/exit contracts plus the bounded stand-in (DIP texts)"]),
